@@ -36,6 +36,31 @@ func registerMoreIntrinsics(e *Engine) {
 		vid := st.allocN(16, nil, "opaque eface data")
 		ret(Struct{Ptr{tid, e.k64(0)}, Ptr{vid, e.k64(0)}})
 	}
+	// runtime.strhash behind caching.StrHash: an uninterpreted function of the key bytes, so the
+	// verdicts hold for every hash function and every collision pattern.  Keys of up to 7 bytes
+	// are packed (length in the top byte) into the single 64-bit argument.
+	e.intr[dgo+"internal/caching.StrHash"] = func(st *State, fn *ssa.Function, args []Value, ret func(Value)) {
+		s := args[0].(Str)
+		n := st.concInt(s.Len, "strhash key length")
+		if n > 7 {
+			st.unsupported("strhash of a key longer than 7 bytes")
+		}
+		packed := c.Const(uint64(n), 8)
+		var bs []*T
+		if n > 0 {
+			bs = st.readBytes(s.P, n)
+		}
+		for i := int64(0); i < 7; i++ {
+			if i < n {
+				packed = c.Concat(packed, bs[i])
+			} else {
+				packed = c.Concat(packed, c.Const(0, 8))
+			}
+		}
+		h := c.UF("strhash", 64, packed)
+		// StrHash never returns 0
+		ret(c.Ite(c.Eq(h, c.Const(0, 64)), c.Const(1, 64), h))
+	}
 	_ = c
 	// functions replaced by "return the zero value": runtime/reflection glue that only
 	// feeds the assembly hand-over or error texts
